@@ -162,6 +162,7 @@ def parse_sanitizer(stderr, repo=None):
     for um in UB_RE.finditer(stderr):
         path = norm_path(um.group(1), repo)
         msg = re.sub(r'0x[0-9a-f]+', 'ADDR', um.group(4))
+        msg = re.sub(r" \(aka '[^']*'\)", '', msg)
         msg = re.sub(r'\b\d+\b', 'N', msg)
         key = 'UBSan:%s:%s' % (path, msg.replace(' ', '-')[:80])
         out.append((key, dict(report=um.group(0), line=int(um.group(2)))))
